@@ -5,6 +5,7 @@ def fs_rules(n_sort=4, crate_bound=8, path_bound=40):
     return [
         (r"sort|smallsort|insert_tail|bidirectional_merge|heapsort|quicksort|partition", n_sort + 2),
         (r"memcmp|memchr|Components|rposition|position|trim|utf8|Utf8|from_utf8|CharSearcher|next_match|char_count", path_bound),
+        (r"6kv_kfs", 48),
         (r"12kismet_cache", crate_bound),
     ]
 
@@ -65,6 +66,8 @@ prop("C08", [
       bounds="n=3, ranks<4, flags any, capacity: any usize; to_evict contents + both lengths (to_move_back contents not read)", timeout=2400, mem_gb=10),
     K("second_chance", "c08_n4_evicted", functions=PLANNER, tiers=("thorough",),
       bounds="n=4, ranks<4, flags any, capacity: any usize; to_evict contents + both lengths", timeout=5400, mem_gb=40),
+    K("second_chance", "c08_spec_planner_n2", functions=["kv_kfs::spec_planner (the planner model used by prune harnesses)"], bounds="n=2", timeout=900, mem_gb=8),
+    K("second_chance", "c08_spec_planner_n3", functions=["kv_kfs::spec_planner (the planner model used by prune harnesses)"], bounds="n=3", timeout=1800, mem_gb=12),
     K("second_chance", "c08_sanity_twin", expect="fail", bounds="n=2", timeout=1200, mem_gb=8,
       notes="vacuity witness: same body ending in assert!(false) must be violated"),
 ],
@@ -74,4 +77,53 @@ prop("C08", [
              "tie order is left free by the oracle (the statement says 'under some ordering of equally ranked entries')"],
     assumptions=["Kani/CBMC model of alloc::vec and core::slice::sort is faithful", "CaDiCaL verdicts"] + VEC_STUBS,
 )
+
+RAW = ["raw_cache::insert_or_update", "raw_cache::insert_or_touch", "raw_cache::touch", "raw_cache::ensure_file_touched"]
+prop("T00", [
+    K("raw_ops", "kfs_selftest", functions=["KFS model self-test"], bounds="", timeout=600, rules=fs_rules()),
+    K("raw_ops", "raw_insert_or_update_basic", functions=RAW, bounds="", timeout=900, rules=fs_rules()),
+    K("raw_ops", "raw_insert_or_touch_basic", functions=RAW, bounds="", timeout=900, rules=fs_rules()),
+    K("raw_ops", "raw_touch_basic", functions=RAW, bounds="", timeout=900, rules=fs_rules()),
+    K("raw_ops", "raw_collect_ab_sub", functions=RAW, bounds="", timeout=900, rules=fs_rules()),
+    K("raw_ops", "raw_collect_a_temp", functions=RAW, bounds="", timeout=900, rules=fs_rules()),
+    K("raw_ops", "raw_prune_a_app_cap0", functions=RAW, bounds="", timeout=1200, rules=fs_rules(), mem_gb=16),
+    K("raw_ops", "raw_prune_a_app_cap1", functions=RAW, bounds="", timeout=1200, rules=fs_rules(), mem_gb=16),
+    K("raw_ops", "raw_collect_a_app", functions=RAW, bounds="", timeout=900, rules=fs_rules()),
+    K("raw_ops", "raw_collect_empty_temp", functions=RAW, bounds="", timeout=900, rules=fs_rules()),
+    K("raw_ops", "raw_apply_update_evict_a_moveback_b", functions=RAW, bounds="", timeout=900, rules=fs_rules()),
+    K("raw_ops", "raw_ops_sanity_twin", functions=RAW, bounds="", timeout=900, rules=fs_rules(), expect="fail"),
+], level="model_checking")
+
+PLAIN = ["plain::Cache::{new,get,touch,set,put}", "cache_dir::CacheDir::{get,touch,set,put,maybe_cleanup,definitely_cleanup}",
+         "cache_dir::{validate_file_name,cleanup_temporary_directory}", "trigger::PeriodicTrigger::{new,event}", "trigger::observe"] + RAW
+prop("T01", [K("plain_ops", n, functions=PLAIN, timeout=1500, rules=fs_rules(), mem_gb=10,
+               expect=("fail" if "twin" in n else "pass"))
+             for n in ["plain_get_seq", "plain_get_env", "plain_get_fault", "plain_touch_seq", "plain_touch_env", "plain_touch_fault",
+                       "plain_set_seq", "plain_put_seq", "plain_set_env", "plain_put_env", "plain_set_fault", "plain_put_fault",
+                       "plain_ops_sanity_twin"]], level="model_checking")
+
+prop("T02", [M("c12_mapping", functions=["multiplicative_hash::{reduce,mix,map}", "sharded::Cache::{shard_ids,other_shard_id}"], bounds="all u64 hashes, all usize n"),
+             M("c10_trigger", functions=["trigger::PeriodicTrigger::new", "trigger::observe", "plain::Cache::new"], bounds="all periods/capacities")],
+     level="model_checking")
+
+CDIR = ["cache_dir::validate_file_name", "cache_dir::cleanup_temporary_directory", "std::path::PathBuf::push (real)"]
+prop("T03", [K("cache_dir_ops", n, functions=CDIR, timeout=1200, rules=fs_rules(), mem_gb=8, expect=("fail" if "twin" in n else "pass"))
+             for n in ["c16_validator", "c16_confinement", "c16_sanity_twin", "c02_cleanup_temp_by_age", "c02_cleanup_temp_missing_dir"]],
+     level="model_checking")
+
+SHARDED = ["sharded::Cache::{new,get,touch,set,put,shard,sort_by_load,other_shard_id,update_estimate,force_maintain_shard,maintain_random_other_shard}",
+           "sharded::{format_id,Shard::{replace_shard,file_exists}}"] + PLAIN[1:]
+prop("T04", [K("sharded_ops", n, functions=SHARDED, timeout=1800, rules=fs_rules(), mem_gb=10, expect=("fail" if "twin" in n else "pass"))
+             for n in ["sharded_get_01", "sharded_get_10", "sharded_touch_01", "sharded_set_01_seq", "sharded_put_10_seq", "sharded_set_01_env",
+                       "sharded_put_01_fault", "c12_new_clamps", "c12_format_id", "c12_constants", "sharded_ops_sanity_twin"]],
+     level="model_checking")
+
+STACK = ["stack::{CacheBuilder::*,Cache::{get,touch,ensure,get_or_update,set,put,set_temp_file,put_temp_file,maybe_sync_path},finalize_tempfile}",
+         "readonly::{ReadOnlyCacheBuilder::*,ReadOnlyCache::{get,touch}}", "byte_equality_checker"] + SHARDED
+STACK_NAMES = ['stack_get_w1r1_nock', 'stack_get_w1r2_bytes', 'stack_get_w0r2_bytes', 'stack_touch_w1r2', 'stack_ensure_w1r1_nock', 'stack_gou_w1r1_nock', 'stack_gou_w1r1_bytes', 'stack_gou_w0r1_nock', 'stack_gou_w2r1_nock', 'stack_set_w1r1', 'stack_put_w1r1', 'stack_set_temp_w1r1', 'stack_put_temp_w2r0', 'stack_set_w0r1', 'stack_put_temp_w0r1', 'stack_gou_w1r1_nosync', 'stack_gou_w1r1_fault', 'stack_set_temp_w1r1_fault', 'stack_set_w1r1_fault']
+prop("T05", [K("stack_ops", n, functions=STACK, timeout=2400, rules=fs_rules(), mem_gb=12,
+               panic_ok=("auto_sync failed, and failure semantics are unclear",) if "fault" in n else ())
+             for n in STACK_NAMES] + [K("stack_ops", "stack_ops_sanity_twin", functions=STACK, timeout=2400, rules=fs_rules(), mem_gb=12, expect="fail")],
+     level="model_checking")
+
 NOT_APPLICABLE = {}
